@@ -322,11 +322,51 @@ func genTotalExpr(r *rand.Rand, n int, emit func(args ...string)) {
 	}
 }
 
+// hasLongDigitRun: a run of digits (with at most one '.') carrying more than 15 significant digits
+// anywhere in the text. The shared longNumberLiteral check tokenises with the plain Scanner and
+// misses number literals that only the parser sees (after a ScanRegex the plain Scanner may be inside
+// what it takes for a comment); this check is purely textual and therefore conservative.
+func hasLongDigitRun(text string) bool {
+	n := len(text)
+	for i := 0; i < n; {
+		if !(text[i] >= '0' && text[i] <= '9') && text[i] != '.' {
+			i++
+			continue
+		}
+		j := i
+		dots := 0
+		var digits []byte
+		for j < n && ((text[j] >= '0' && text[j] <= '9') || (text[j] == '.' && dots == 0)) {
+			if text[j] == '.' {
+				dots++
+			} else {
+				digits = append(digits, text[j])
+			}
+			j++
+		}
+		if dots > 0 && len(strings.TrimLeft(string(digits), "0")) > 15 {
+			return true
+		}
+		if j == i {
+			j++
+		}
+		i = j
+	}
+	return false
+}
+
+func implTotalExpr(args []string) string {
+	if text, err := decStr(args[0]); err == nil && hasLongDigitRun(text) {
+		return "skip-float-precision"
+	}
+	return implParseExpr(args)
+}
+
 func init() {
 	register(&stream{name: "total.bytes", gen: genTotalBytes, impl: implTotalBytes, prop: propTotalBytes,
 		class: func(args []string, out string) string { return out },
 		nontrivial: func(args []string, out string) bool { return len(args[0]) > 10 }})
-	register(&stream{name: "total.expr", gen: genTotalExpr, impl: implParseExpr,
+	register(&stream{name: "total.expr", gen: genTotalExpr, impl: implTotalExpr,
 		prop: func(args []string) string {
 			text, err := decStr(args[0])
 			if err != nil {
